@@ -43,9 +43,24 @@ Definition run_case (c : case) : gslice Z * result unit :=
   | FGrow => of_result (grow growth 0%Z s (c_k c))
   end.
 
-Definition unit_eqb (_ _ : unit) : bool := true.
+(* What is compared (audit round): only what the property fixes.
+   - outcome: returned / panicked (not the panic kind, which the harness derives from message text);
+   - Fill, Reverse (in place on the caller's array): the whole array up to the capacity and the length;
+   - Remove, RemoveSlice: length and visible part, also after a panic (unchanged slice); the stale cells
+     behind the new length are not compared;
+   - Insert, InsertSlice, Grow, Repeat, Concat, Clone: length and visible part of the result (not its
+     capacity, not whether append worked in place, not what lies behind the length); after a panic of
+     Insert / InsertSlice nothing but the panic (the property does not fix the slice's state then). *)
+Definition is_panic {X} (r : result X) : bool := match r with Panic _ => true | Ok _ => false end.
+
+Definition whole_array (f : fn) : bool := match f with FFill | FReverse => true | _ => false end.
+Definition state_after_panic (f : fn) : bool := match f with FRemove | FRemoveSlice => true | _ => false end.
 
 Definition check_case (c : case) : bool :=
   let '(s, r) := run_case c in
-  list_eqb Z.eqb (arr s) (c_obs_arr c) && (Z.of_nat (len s) =? c_obs_len c)%Z &&
-  result_eqb unit_eqb r (c_obs c).
+  Bool.eqb (is_panic r) (is_panic (c_obs c)) &&
+  (if is_panic r && negb (state_after_panic (c_fn c)) then true
+   else if whole_array (c_fn c)
+   then list_eqb Z.eqb (arr s) (c_obs_arr c) && (Z.of_nat (len s) =? c_obs_len c)%Z
+   else (Z.of_nat (len s) =? c_obs_len c)%Z &&
+        list_eqb Z.eqb (visible s) (firstn (Z.to_nat (c_obs_len c)) (c_obs_arr c))).
